@@ -500,10 +500,11 @@ impl Feat {
     fn same_kind(&self, o: &Feat) -> bool {
         match (self, o) {
             (Feat::D(..), Feat::D(..)) | (Feat::T(..), Feat::T(..)) | (Feat::E(..), Feat::E(..)) => true,
-            (
-                Feat::CF(t, u, _) | Feat::CI(t, u, _) | Feat::CU(t, u, _) | Feat::CB(t, u, _),
-                Feat::CF(t2, u2, _) | Feat::CI(t2, u2, _) | Feat::CU(t2, u2, _) | Feat::CB(t2, u2, _),
-            ) => t == t2 && u == u2,
+            // custom features: same type, same unit and same format
+            (Feat::CF(t, u, _), Feat::CF(t2, u2, _))
+            | (Feat::CI(t, u, _), Feat::CI(t2, u2, _))
+            | (Feat::CU(t, u, _), Feat::CU(t2, u2, _))
+            | (Feat::CB(t, u, _), Feat::CB(t2, u2, _)) => t == t2 && u == u2,
             _ => false,
         }
     }
@@ -1377,6 +1378,19 @@ fn gen_feat_json_safe(rng: &mut Rng) -> Feat {
     }
 }
 
+/// the same custom feature (type, unit) in another format: a change of kind
+fn format_change_variant(rng: &mut Rng, old: &Feat) -> Feat {
+    match old {
+        Feat::CF(t, u, _) => match rng.below(3) {
+            0 => Feat::CI(t.clone(), u.clone(), rng.range(-1000, 1000)),
+            1 => Feat::CU(t.clone(), u.clone(), rng.below(1000) as u64),
+            _ => Feat::CB(t.clone(), u.clone(), rng.chance(1, 2)),
+        },
+        Feat::CI(t, u, _) | Feat::CU(t, u, _) | Feat::CB(t, u, _) => Feat::CF(t.clone(), u.clone(), json_safe(rng)),
+        other => same_kind_variant(rng, other),
+    }
+}
+
 fn same_kind_variant(rng: &mut Rng, old: &Feat) -> Feat {
     match old {
         Feat::D(..) => Feat::D(*rng.pick(&DU), json_safe(rng)),
@@ -1678,6 +1692,7 @@ fn cf_cases(ctx: &mut Ctx) {
                 .map(|_| {
                     let name = format!("f{}", rng.below(u));
                     let f = match cfg.iter().find(|e| e.0 == name) {
+                        Some((_, old)) if rng.chance(6, 100) => format_change_variant(rng, old),
                         Some((_, old)) if rng.chance(93, 100) => same_kind_variant(rng, old),
                         _ => gen_feat_json_safe(rng),
                     };
